@@ -1003,7 +1003,8 @@ func exprRandStream(seed uint64, n int) *Stream {
 // operator, postfix form and built-in function: reaches every arm of the type
 // switches of expr_sema.go / expr_type.go
 var typedOperands = []string{"null", "true", "1", "1.5", "0xff", "'s'", "''", "fromJSON('[1,2]')", "fromJSON('[[\"a\"]]')", "fromJSON('{\"a\":{\"b\":null}}')",
-	"fromJSON('null')", "github", "env", "steps", "matrix", "github.event", "github.event.commits", "steps.*.outputs", "github.event.foo.*.bar", "secrets.x", "inputs", "vars", "needs", "job.services", "strategy", "runner"}
+	"fromJSON('null')", "fromJSON('[{\"a\":1},{\"a\":2}]')", "fromJSON('[{\"a\":1}]').*.zz", "fromJSON('1e999')", "fromJSON('[1,2,-1e400]')", "fromJSON('[')",
+	"github", "env", "steps", "matrix", "github.event", "github.event.commits", "steps.*.outputs", "github.event.foo.*.bar", "secrets.x", "inputs", "vars", "needs", "job.services", "strategy", "runner"}
 
 var typedOps = []string{"==", "!=", "<", "<=", ">", ">=", "&&", "||"}
 
@@ -1018,7 +1019,8 @@ func exprTypedStream() *Stream {
 				exprs = append(exprs, l+" "+op+" "+r)
 			}
 		}
-		exprs = append(exprs, "!"+l, "("+l+")", l+".a", l+".*", l+".*.a", l+"[0]", l+"['a']", l+"[*]", l+".a.b.c", "!!"+l)
+		exprs = append(exprs, "!"+l, "("+l+")", l+".a", l+".*", l+".*.a", l+"[0]", l+"['a']", l+"[*]", l+".a.b.c", "!!"+l,
+			l+".*.zz.y", l+".*.a.*.b", "join("+l+".*.zz, ',')", l+".*.zz == 1", l+"[0].zz.y")
 		for _, r := range o {
 			exprs = append(exprs, l+"["+r+"]")
 		}
